@@ -4,6 +4,7 @@ Model: FpVerif/Model/Sched.lean (writeQueue, Consume, round-robin ring, random s
 choice among ready streams). The priority scheduler's tree is treated in FpVerif/Properties/C20Prio.lean.
 -/
 import FpVerif.Lemmas.Sched
+import FpVerif.Lemmas.Prio
 set_option linter.unusedSimpArgs false
 set_option linter.unusedVariables false
 namespace Fp.C20
@@ -374,5 +375,54 @@ example :
     (runAcc St.init {} [.open_ 1, .addWin 1 10, .push { uid := 1, sid := some 1, isData := true, size := 25, es := true },
       .pop, .push { uid := 2, sid := none, isData := false, size := 0, es := false }, .pop, .close 1]).2.discB = 15 := by
   decide
+
+/-! ### priority scheduler: the dependency structure stays a tree rooted at stream 0 -/
+
+/-- run a sequence of scheduler-interface operations (OpenStream, CloseStream, AdjustStream with any dependency,
+weight and exclusive flag, Push, Pop, window / frame-size changes) from the initial scheduler -/
+def prioRun (less : Prio.PNode → Prio.PNode → Bool) (s : Prio.PSt) : List Prio.POp → Prio.PSt
+  | [] => s
+  | op :: r => prioRun less (Prio.step less s op).1 r
+
+/-- THE TREE PROPERTY, for every operation sequence and every configuration (retention limits, throttling) and
+whatever the sibling comparator answers: every stream the scheduler knows about (open, idle or retained closed)
+has a finite parent chain that ends at the root, stream 0 — self-dependencies, dependencies on descendants
+(cycles), exclusive re-parenting, evictions from the retention lists and re-sorting included. Panicking
+operations (interface violations) leave the structure untouched. -/
+theorem tree_rooted (less : Prio.PNode → Prio.PNode → Bool) (mc mi : Nat) (th : Bool) (ops : List Prio.POp) :
+    let s := prioRun less (Prio.PSt.init mc mi th) ops
+    (∀ id p, (id, p) ∈ s.nodes → Prio.Rooted s p) ∧ Prio.lookup s 0 = some 0 ∧ Prio.par s 0 = none := by
+  have key : ∀ (ops : List Prio.POp) (s : Prio.PSt), Prio.TreeInv s → Prio.TreeInv (prioRun less s ops) := by
+    intro ops
+    induction ops with
+    | nil => intro s h; exact h
+    | cons op r ih => intro s h; exact ih _ (h.step less op)
+  have h := key ops _ (Prio.TreeInv.init mc mi th)
+  exact ⟨fun id p hm => h.mapped_rooted hm, h.rootMapped, h.rootPar⟩
+
+/-- a parent chain cannot come back to its start: no stream is its own (transitive) dependency -/
+theorem no_cycle (less : Prio.PNode → Prio.PNode → Bool) (mc mi : Nat) (th : Bool) (ops : List Prio.POp) (id p q : Nat) :
+    let s := prioRun less (Prio.PSt.init mc mi th) ops
+    (id, p) ∈ s.nodes → Prio.par s p = some q → ¬ Prio.Anc s p q := by
+  intro s hm hq
+  have key : ∀ (ops : List Prio.POp) (s : Prio.PSt), Prio.TreeInv s → Prio.TreeInv (prioRun less s ops) := by
+    intro ops
+    induction ops with
+    | nil => intro s h; exact h
+    | cons op r ih => intro s h; exact ih _ (h.step less op)
+  have h := key ops _ (Prio.TreeInv.init mc mi th)
+  exact Prio.not_anc_parent h.rootPar hq (h.mapped_rooted hm)
+
+/-- non-vacuity: idle grouping node, exclusive dependency on a descendant (a would-be cycle), self-dependency,
+close with retention, and a re-sorting Pop: four streams end up in a chain 0 ← 7 ← 3 ← 5 with 1 beside -/
+example :
+    let s := prioRun (fun _ _ => true) (Prio.PSt.init 2 2 false)
+      [.adjust 7 0 15 false, .open_ 1, .open_ 3, .open_ 5, .adjust 5 3 200 false, .adjust 3 5 10 true, .adjust 3 3 1 false,
+       .adjust 3 7 16 true, .adjust 5 3 20 false, .push { uid := 1, sid := some 5, isData := false, size := 0, es := false },
+       .pop, .close 1]
+    (s.nodes.map fun e => (e.1, (Prio.node s e.2).parent.map fun q => (Prio.node s q).id)) =
+      [(0, none), (7, some 0), (1, some 0), (3, some 7), (5, some 3)] := by
+  decide
+
 
 end Fp.C20
